@@ -133,9 +133,10 @@ def lean_audit(prop, module_imports, theorems):
         rc, out = sh(["lake", "env", "lean", path], cwd=LEAN, timeout=1800)
     res = {}
     # output: "'name' depends on axioms: [a, b]" or "'name' does not depend on any axioms"
-    for m in re.finditer(r"'([^']+)' depends on axioms: \[([^\]]*)\]", out, flags=re.S):
+    # (names may end in primes: `'H5V.X.thm'' depends on …`)
+    for m in re.finditer(r"'([^'\s]+?'*)' depends on axioms: \[([^\]]*)\]", out, flags=re.S):
         res[m.group(1)] = [a.strip() for a in m.group(2).replace("\n", " ").split(",") if a.strip()]
-    for m in re.finditer(r"'([^']+)' does not depend on any axioms", out):
+    for m in re.finditer(r"'([^'\s]+?'*)' does not depend on any axioms", out):
         res[m.group(1)] = []
     ok = rc == 0
     bad = {}
